@@ -269,17 +269,29 @@ func (m *monC02) finalAccounting(h *History, st *Step, a *Auc) []Violation {
 			continue
 		}
 		gotS := flowOf(h.OutS, id, b)
-		if gotS.Cmp(alloc) != 0 {
-			vs = append(vs, viol("C02/bidder-allocation", "auction %d finished: %s received %s%s, allocated %s", id, short(b), gotS, a.SellDenom, alloc))
-		}
 		refund := flowOf(h.OutP, id, b)
 		pay := bsub(in, refund)
 		if refund.Sign() > 0 {
 			refunds++
 		}
 		lo, hi := rec.ReqSum[b], rec.ReqSum[b] // fixed price: everything reserved is the payment
-		if rec.Ref != nil {
-			lo, hi = rec.Ref.PayLo[b], rec.Ref.PayHi[b]
+		if rec.Ref == nil {
+			if gotS.Cmp(alloc) != 0 {
+				vs = append(vs, viol("C02/bidder-allocation", "fixed price auction %d finished: %s received %s%s, its accepted bids add up to %s", id, short(b), gotS, a.SellDenom, alloc))
+			}
+		} else {
+			// batch: the due payment follows from the uniform price used and the coins received (whether
+			// the price and the allocation are the right ones is C03's business)
+			alloc = gotS
+			totalAlloc.Add(totalAlloc, bsub(gotS, zeroIfNil(rec.Alloc[b])))
+			if rec.UsedPriceM == nil {
+				lo, hi = bigZero, bigZero
+				if gotS.Sign() != 0 {
+					vs = append(vs, viol("C02/coins-without-price", "batch auction %d finished with no clearing price but %s received %s%s", id, short(b), gotS, a.SellDenom))
+				}
+			} else {
+				lo, hi, _, _, _ = PayBounds(rec.Bids, b, rec.PayDenom, rec.UsedPriceM, gotS)
+			}
 		}
 		if pay.Cmp(lo) < 0 || pay.Cmp(hi) > 0 {
 			vs = append(vs, viol("C02/bidder-payment", "auction %d finished: %s reserved %s, got %s back, so paid %s%s; due payment is in [%s,%s] for %s coins", id, short(b), in, refund, pay, a.PayDenom, lo, hi, alloc))
